@@ -31,7 +31,7 @@ func genInferFiles(r *simrt.Rand, ties bool) (files map[string]string, args []st
 	}
 	var tr strings.Builder
 	var recurring [][2]string // (description, quantity) of training bookings that targets may repeat verbatim
-	kind := r.Intn(7)
+	kind := r.Intn(8)
 	if ties {
 		kind = 5
 	}
@@ -43,6 +43,11 @@ func genInferFiles(r *simrt.Rand, ties bool) (files map[string]string, args []st
 		tr.WriteString("2020-01-01 open Assets:Bank\n2020-01-01 price USD 1.1 CHF\n\n")
 	case 3: // one account pair only
 		tr.WriteString("2020-01-02 \"Coffee\"\nAssets:Bank Expenses:Food 4 CHF\n\n")
+	case 7: // one account only (transfers inside one account): a candidate for every booking but those on that account
+		a := inferAccs[r.Intn(3)]
+		for k := r.Range(1, 3); k > 0; k-- {
+			fmt.Fprintf(&tr, "2020-01-%02d \"%s\"\n%s %s %d CHF\n\n", k, descPool[r.Intn(len(descPool)-2)], a, a, r.Range(1, 500))
+		}
 	case 5: // ties by construction: the same description for two accounts, same counts
 		for k := 0; k < r.Range(1, 3); k++ {
 			d := descPool[r.Intn(len(descPool)-2)]
@@ -342,11 +347,13 @@ func diffInfer(formatted, got, ph string, train map[string]bool) *Violation {
 				}
 				continue
 			}
-			// candidates: training accounts other than the other account of the booking (as written in the target)
+			// candidates: training accounts other than the other account of the booking, as written in the
+			// target and as it stands in the output (a booking with the placeholder on both sides and a
+			// single training account: one side gets it, for the other side nothing is left)
 			otherOrig := fa[1-k]
 			n := 0
 			for a := range train {
-				if a != otherOrig {
+				if a != otherOrig && a != other {
 					n++
 				}
 			}
